@@ -106,11 +106,12 @@ fn download(budget: usize, token_len: usize, opts: &[(u16, Vec<u8>)], client: Op
 }
 
 #[allow(clippy::too_many_arguments)]
-fn upload(budget: usize, token: &[u8], path: &[&str], extra: &[(u32, Vec<u8>)], client: u8, body_len: usize, rep: &mut Report) -> Result<&'static str, (String, String)> {
+fn upload(budget: usize, token: &[u8], path: &[&str], extra: &[(u32, Vec<u8>)], client: u8, body_len: usize, big_reply: bool, rep: &mut Report) -> Result<&'static str, (String, String)> {
     let the_body = body(body_len, 0x55);
     let mut srv = Server::new(budget, Duration::from_secs(3600));
     clock::reset();
-    let app = |_c: &AppCall| AppReply { code: 0x44, options: vec![], payload: vec![] };
+    // the application's reply to the completed upload is either empty or itself too large for one message
+    let app = move |_c: &AppCall| AppReply { code: 0x44, options: vec![], payload: if big_reply { body(2000, 0x3C) } else { vec![] } };
     let mut mid = 700u16;
     let mut offset = 0usize;
     let mut szx = client;
@@ -145,6 +146,18 @@ fn upload(budget: usize, token: &[u8], path: &[&str], extra: &[(u32, Vec<u8>)], 
         check_size_choice(s2, Some(szx), req_ovh, budget)?;
         offset = end;
         if !more {
+            if big_reply {
+                // the response to the final block must itself have been fragmented (it carries a Block2 option) ...
+                match block_opt(&reply, 23) {
+                    Some((0, true, s)) if s <= 6 => {}
+                    other => {
+                        return Err((
+                            "C10/large-reply-to-upload-not-fragmented".into(),
+                            format!("a 2000-byte reply to the final upload block came back with Block2 {:?} in a message of {} bytes (budget {})", other, bytes.len(), budget),
+                        ))
+                    }
+                }
+            }
             break;
         }
         // the client's next block with the acknowledged size must fit
@@ -173,14 +186,20 @@ pub fn run(ctx: &Ctx, rep: &mut Report) {
     // ---- downloads
     {
         let tokens = [0usize, 4, 8];
-        let optsets: Vec<Vec<(u16, Vec<u8>)>> = vec![vec![], vec![(8, vec![b'L'; 60])], vec![(4, vec![1, 2, 3, 4, 5, 6, 7, 8]), (14, vec![0xFF, 0xFF, 0xFF, 0xFF]), (12, vec![0x2A, 0xF8])]];
+        let optsets: Vec<Vec<(u16, Vec<u8>)>> = vec![
+            vec![],
+            vec![(8, vec![b'L'; 60])],
+            vec![(4, vec![1, 2, 3, 4, 5, 6, 7, 8]), (14, vec![0xFF, 0xFF, 0xFF, 0xFF]), (12, vec![0x2A, 0xF8])],
+            // many instances of one option (every instance has its own header byte)
+            (0..14).map(|k| (8u16, vec![b'a' + k as u8])).collect(),
+        ];
         let clients: Vec<Option<u8>> = std::iter::once(None).chain((0..=7).map(Some)).collect();
-        let radices = [if ctx.thorough() { NBUDGETS_ALL } else { NBUDGETS }, 3, 3, clients.len() as u64, 6];
+        let radices = [if ctx.thorough() { NBUDGETS_ALL } else { NBUDGETS }, 3, optsets.len() as u64, clients.len() as u64, 6];
         let n = product(&radices);
         ctx.family(
             rep,
             "downloads",
-            "budget (every value overhead+28..+92, +-2 around overhead+12+2^k for k=4..10, 1152, 1280; thorough: every value up to 1280) x token length {0,4,8} x application options {none, 60-byte Location-Path, ETag+Max-Age+Content-Format} x client SZX {none, 0..7} x body {half a block, block-1, block, block+1, 2 blocks+1, 5 blocks+3 relative to the room left by the budget}: every reply measured against the budget, size choice checked",
+            "budget (every value overhead+28..+92, +-2 around overhead+12+2^k for k=4..10, 1152, 1280; thorough: every value up to 1280) x token length {0,4,8} x application options {none, 60-byte Location-Path, ETag+Max-Age+Content-Format, 14 one-byte Location-Path segments} x client SZX {none, 0..7} x body {half a block, block-1, block, block+1, 2 blocks+1, 5 blocks+3 relative to the room left by the budget}: every reply measured against the budget, size choice checked",
             n,
             true,
             |i, rep| {
@@ -237,12 +256,12 @@ pub fn run(ctx: &Ctx, rep: &mut Report) {
         let long_seg = "s".repeat(60);
         let paths: Vec<Vec<&str>> = vec![vec!["a"], vec!["seg1", "seg2", "seg3"], vec![&long_seg]];
         let extras: Vec<Vec<(u32, Vec<u8>)>> = vec![vec![], vec![(15, vec![b'q'; 40])]];
-        let radices = [if ctx.thorough() { NBUDGETS_ALL } else { NBUDGETS }, 3, 3, 2, 7, 4];
+        let radices = [if ctx.thorough() { NBUDGETS_ALL } else { NBUDGETS }, 3, 3, 2, 7, 4, 2];
         let n = product(&radices);
         ctx.family(
             rep,
             "uploads",
-            "budget (same selection, relative to the request's non-payload overhead) x token {0,4,8} x path {a, 3 segments, one 60-byte segment} x extra {none, 40-byte Uri-Query} x client SZX 0..6 x body {half a block, 1 block+1, 3 blocks+1, 6 blocks}: every 2.31 / final reply measured, acknowledged size checked, the client's next block with that size measured",
+            "budget (same selection, relative to the request's non-payload overhead) x token {0,4,8} x path {a, 3 segments, one 60-byte segment} x extra {none, 40-byte Uri-Query} x client SZX 0..6 x body {half a block, 1 block+1, 3 blocks+1, 6 blocks} x application reply to the final block {empty, 2000 bytes}: every 2.31 / final reply measured, acknowledged size checked, the client's next block with that size measured",
             n,
             true,
             |i, rep| {
@@ -266,9 +285,9 @@ pub fn run(ctx: &Ctx, rep: &mut Report) {
                     2 => 3 * s + 1,
                     _ => 6 * s,
                 };
-                let case = || Json::obj().set("direction", "upload").set("budget", budget).set("request_overhead", ovh).set("client_szx", client).set("body_len", body_len).set("path_shape", d[2]).set("token_len", token.len()).set("extra_option", d[3]);
+                let case = || Json::obj().set("direction", "upload").set("budget", budget).set("request_overhead", ovh).set("client_szx", client).set("body_len", body_len).set("path_shape", d[2]).set("token_len", token.len()).set("extra_option", d[3]).set("large_reply_to_final_block", d[6] == 1);
                 let mut local = Report::new();
-                let r = mccore::guard(|| upload(budget, token, path, extra, client, body_len, &mut local));
+                let r = mccore::guard(|| upload(budget, token, path, extra, client, body_len, d[6] == 1, &mut local));
                 rep.transitions += local.transitions;
                 rep.traces_validated += local.traces_validated;
                 rep.state_set.extend(local.state_set);
